@@ -97,7 +97,7 @@ def parse_fields(rest):
     parts = [p.strip() for p in rest.split(" :: ")]
     pos, kw = [], {}
     for p in parts:
-        m = re.match(r"(requires|ensures|invariant|decreases|iter|invariant_except_break|ensures_loop|body_end|body|post)\b\s*(.*)$", p, re.S)
+        m = re.match(r"(requires|ensures|invariant2|invariant_except_break|invariant|decreases|iter2|iter|ensures_loop|body2_end|body2|body_end|body|post)\b\s*(.*)$", p, re.S)
         if m:
             kw[m.group(1)] = m.group(2).strip()
         else:
@@ -683,7 +683,7 @@ def instantiate_fn(fs, item, em):
             ptxt = spec["params"]
             if ptxt is None:
                 raise GenError("%s: closure %s needs typed params" % (fnkey, n))
-            ptypes = split_top(ptxt)
+            ptypes = [] if ptxt.strip() in ("-", "") else split_top(ptxt)      # `-`: a closure without parameters (`|| ..`)
             if len(ptypes) != len(names):
                 raise GenError("%s: closure %s has %d params in source but sidecar gives %d" % (fnkey, n, len(names), len(ptypes)))
             header = "|" + ", ".join("%s: %s" % (nm, ty) for nm, ty in zip(names, ptypes)) + "|"
@@ -1055,6 +1055,45 @@ def instantiate_fn(fs, item, em):
                     k += 1
                 if not found:
                     _gone("%s rule: occurrence %d not found" % (rule, n))
+            elif rule == "flatten_collect":
+                # RECV.into_iter().flatten().collect()   (Vec<Vec<T>> -> Vec<T>; definitions of Iterator::flatten + collect into Vec)
+                # { let __src = RECV.into_iter(); let mut __out: Vec<T> = Vec::new();
+                #   for __g in it: __src INV { BODY let __gi = __g.into_iter(); for __x in it2: __gi INV2 { __out.push(__x); } BODY_END } POST __out }
+                cnt = 0
+                found = False
+                k = lo
+                while k + 11 < hi:
+                    tt = [toks[k + j].text for j in range(0, 12)]
+                    if tt == [".", "into_iter", "(", ")", ".", "flatten", "(", ")", ".", "collect", "(", ")"]:
+                        cnt += 1
+                        if cnt == max(n, 1):
+                            r = recv_start(toks, k)
+                            recv = text[toks[r].start:toks[k - 1].end]
+                            it = kws.get("iter", "__it")
+                            it2 = kws.get("iter2", "__it2")
+                            ety = pos[0] if pos else "_"
+                            invs = []
+                            for key, tagk in (("invariant", "fcA"), ("invariant2", "fcB")):
+                                inv = []
+                                if kws.get(key):
+                                    inv.append("invariant")
+                                    for ci, cexpr in enumerate(split_top(kws[key]), 1):
+                                        cexpr, __xt = inv_clause(cexpr)
+                                        obid = "%s#%s%dinv%d" % (fnkey, tagk, cnt, ci)
+                                        inv.append("    %s,  /*@ob %s*/" % (cexpr, obid))
+                                        em._pending.append({"id": obid, "kind": "loop-invariant", "fn": fnkey,
+                                                            "tags": [t for t in fs.tags if t != "C16"] + __xt, "text": cexpr, "marker": obid})
+                                invs.append("\n".join("                " + x for x in inv))
+                            edits.append((toks[r].start, toks[k + 11].end,
+                                          "{ let __src = %s.into_iter(); let mut __out: Vec<%s> = Vec::new(); for __g in %s: __src\n%s\n            { %s let __gi = __g.into_iter(); for __x in %s: __gi\n%s\n            { %s __out.push(__x); %s } %s } %s __out }" % (
+                                              recv, ety, it, invs[0], kws.get("body", ""), it2, invs[1], kws.get("body2", ""), kws.get("body2_end", ""), kws.get("body_end", ""), kws.get("post", ""))))
+                            log.append("R-flatten-collect: `%s.into_iter().flatten().collect()` rewritten to two nested loops pushing every element (line %d)" % (
+                                recv, item.line0 + text.count("\n", 0, toks[k].start)))
+                            found = True
+                            break
+                    k += 1
+                if not found:
+                    _gone("flatten_collect rule: occurrence %d not found" % n)
             elif rule == "iter_map_collect_set":
                 # RECV.iter().map(CL).collect()   where the collect target is a HashSet<T>:
                 # { let __f = CL; let mut __out: HashSet<T> = HashSet::new(); for __x in it: RECV.iter() { __out.insert(__f(__x)); } __out }
@@ -1326,7 +1365,7 @@ def instantiate_fn(fs, item, em):
                 # extra argument `&mut <state>`, and `<state>.into_inner()` becomes `<state>`.
                 var, sname, st, sty = pos[0], pos[1], pos[2], pos[3]
                 ok = True
-                m1 = re.search(r"let\s+%s\s*=\s*RefCell::new\(" % re.escape(st), text)
+                m1 = re.search(r"let\s+%s\s*(?::\s*RefCell\s*<[^=;]*>\s*)?=\s*RefCell::new\(" % re.escape(st), text)
                 cl = [c for c in find_closures(toks, lo, hi)
                       if c["bar1"] >= 3 and toks[c["bar1"] - 1].text == "=" and toks[c["bar1"] - 2].text == var and toks[c["bar1"] - 3].text == "let"]
                 m3 = re.search(r"\.walk\(([^;]*?),\s*&%s\)" % re.escape(var), text)
